@@ -519,7 +519,10 @@ def run_valuelevel(rep, prop_id, cases_fn, rng, tier, rule, assumptions, profile
         rep.violation("proof", {"theorem_or_translator": f, "property_module": f"MiniconfVerif.Props.{prop_id}"},
                       no_input=True)
     n = len(c.lines) - c.n_decl
+    hyp = hypothesis_check(rep, c.lines[:c.n_decl], expect_unfit=tuple(
+        f" {t['tid']} " for t in types if "arr_huge" in t["label"]))
     rep.coverage = {
+        "hypotheses_on_corpus": hyp,
         "obligations": pl["obligations"],
         "discharged": pl["discharged"] if not pl["failures"] else min(pl["discharged"], max(pl["obligations"] - 1, 0)),
         "checker_cmd": f"cd lean && lake build MiniconfVerif.Props.{prop_id} && lake env lean MiniconfVerif/Audit/{prop_id}.lean",
